@@ -303,7 +303,7 @@ func Render(p *Prog, s *Style) string {
 	for _, a := range p.Asserts {
 		meta = append(meta, assertLine(s, a))
 	}
-	if s.ScatterDirectives {
+	if s.ScatterDirectives && !Legacy {
 		queue = meta
 	} else {
 		for _, l := range meta {
